@@ -14,8 +14,8 @@ typedef char* (*QuoteFn)(const char*, size_t, char*);
 struct QuoteImpl { const char* name; QuoteFn fn; };
 static char* quote_default(const char* s, size_t n, char* d) { return internal::Quote(s, n, d); }
 #if defined(SONIC_DYNAMIC_DISPATCH)
-static char* quote_sse(const char* s, size_t n, char* d) { return internal::sse::Quote(s, n, d); }
-static char* quote_avx2(const char* s, size_t n, char* d) { return internal::avx2::Quote(s, n, d); }
+__attribute__((target("pclmul,sse4.2"))) static char* quote_sse(const char* s, size_t n, char* d) { return internal::sse::Quote(s, n, d); }
+__attribute__((target("avx2"))) static char* quote_avx2(const char* s, size_t n, char* d) { return internal::avx2::Quote(s, n, d); }
 static const QuoteImpl kQuotes[] = {{"dispatch", quote_default}, {"sse_clone", quote_sse}, {"avx2_clone", quote_avx2}};
 #else
 static const QuoteImpl kQuotes[] = {{"static", quote_default}};
@@ -128,16 +128,22 @@ static void exec_c09(const Plan& p, Outcome& out) {
         }
       } else if (op.kind == "SerializeStr") {
         // the same through the public API: a document of strings at page ends into a tight buffer
-        size_t cnt = (size_t)op.A(0) % 6 + 1;
+        size_t cnt = (size_t)op.A(0) % 16 + 1;
         uint64_t cseed = (uint64_t)op.A(1);
+        bool nested = (op.A(2) >> 1) & 1;   // the serializer pre-reserves only for top-level children
         std::vector<CBuf> bufs; std::vector<std::string> strs;
         DSim d; d.SetArray();
+        NSim inner; inner.SetArray();
         for (size_t k = 0; k < cnt; k++) {
-          std::string s; fill_content(s, (size_t)(mix64(cseed + k) % 100), mix64(cseed ^ k), (int)((cseed + k) % 6));
+          uint64_t hk = mix64(cseed + k * 7919);
+          size_t len;
+          switch (hk % 5) { case 0: case 1: len = (hk >> 8) % 4; break; case 2: { static const size_t L[] = {14, 15, 16, 17, 18, 30, 31, 32, 33, 34}; len = L[(hk >> 8) % 10]; break; } default: len = (hk >> 8) % 100; }
+          std::string s; fill_content(s, len, mix64(cseed ^ k), (int)((hk >> 20) % 6));
           CBuf b(s, simmem::PL_END); bufs.push_back(b); strs.push_back(s);
           NSim nd; nd.SetString(b.data, s.size());
-          d.PushBack(std::move(nd), d.GetAllocator());
+          if (nested) inner.PushBack(std::move(nd), d.GetAllocator()); else d.PushBack(std::move(nd), d.GetAllocator());
         }
+        if (nested) d.PushBack(std::move(inner), d.GetAllocator());
         g_tight_growth = (int)(op.A(2) & 1);
         WriteBuffer wb((size_t)op.A(3) % 64);
         SonicError e = d.Serialize(wb);
@@ -146,6 +152,7 @@ static void exec_c09(const Plan& p, Outcome& out) {
         std::string got(wb.ToString(), wb.Size());
         model::ParseOut ref = model::parse(got);
         JVal want = JVal::arr(); for (auto& s : strs) want.a.push_back(JVal::str(s));
+        if (nested) { JVal outer = JVal::arr(); outer.a.push_back(want); want = outer; }
         if (!ref.ok || !model::equal_struct(ref.v, want)) violate("model", "SerializeStr:roundtrip", "array of strings does not read back: " + model::printable(got, 200));
         for (auto& b : bufs) b.free();
         h = mix64(h ^ fnv1a(got.data(), got.size()));
@@ -172,7 +179,7 @@ static void gen_c09(uint64_t seed, uint64_t run, const std::string& tier, Plan& 
   size_t n = (size_t)(run % 161);
   { p.ops.emplace_back(); Op& op = p.ops.back(); op.kind = "Quote"; op.a = {(int64_t)n, -1, (int64_t)(r.next() >> 1), -1}; }
   if (n && n <= 70) { p.ops.emplace_back(); Op& op = p.ops.back(); op.kind = "Quote"; op.a = {(int64_t)n, -1, (int64_t)(r.next() >> 1), (int64_t)((run / 161) % n)}; }
-  if (r.chance(1, 2)) { p.ops.emplace_back(); Op& op = p.ops.back(); op.kind = "SerializeStr"; op.a = {(int64_t)r.below(6), (int64_t)(r.next() >> 1), (int64_t)r.below(2), (int64_t)r.below(64)}; }
+  for (int k = 0; k < 2; k++) { p.ops.emplace_back(); Op& op = p.ops.back(); op.kind = "SerializeStr"; op.a = {(int64_t)r.below(16), (int64_t)(r.next() >> 1), (int64_t)r.below(4), (int64_t)r.below(64)}; }
 }
 
 // ------------------------------------------------------------------ C14
@@ -180,10 +187,10 @@ typedef bool (*EqFn)(const void*, const void*, size_t);
 typedef int (*CmpFn)(const void*, const void*, size_t);
 struct CmpImpl { const char* name; EqFn eq; CmpFn cmp; };
 #if defined(SONIC_DYNAMIC_DISPATCH)
-static bool eq_sse(const void* a, const void* b, size_t n) { return internal::sse::InlinedMemcmpEq(a, b, n); }
-static int cmp_sse(const void* a, const void* b, size_t n) { return internal::sse::InlinedMemcmp(a, b, n); }
-static bool eq_avx2(const void* a, const void* b, size_t n) { return internal::avx2::InlinedMemcmpEq(a, b, n); }
-static int cmp_avx2(const void* a, const void* b, size_t n) { return internal::avx2::InlinedMemcmp(a, b, n); }
+__attribute__((target("pclmul,sse4.2"))) static bool eq_sse(const void* a, const void* b, size_t n) { return internal::sse::InlinedMemcmpEq(a, b, n); }
+__attribute__((target("pclmul,sse4.2"))) static int cmp_sse(const void* a, const void* b, size_t n) { return internal::sse::InlinedMemcmp(a, b, n); }
+__attribute__((target("avx2"))) static bool eq_avx2(const void* a, const void* b, size_t n) { return internal::avx2::InlinedMemcmpEq(a, b, n); }
+__attribute__((target("avx2"))) static int cmp_avx2(const void* a, const void* b, size_t n) { return internal::avx2::InlinedMemcmp(a, b, n); }
 static const CmpImpl kCmps[] = {{"sse_clone", eq_sse, cmp_sse}, {"avx2_clone", eq_avx2, cmp_avx2}};
 #else
 static bool eq_st(const void* a, const void* b, size_t n) { return internal::InlinedMemcmpEq(a, b, n); }
